@@ -186,13 +186,13 @@ func (g *genr) op(w, h int) string {
 	}
 }
 
-// oscPayload: a selector (known, unknown, empty) and 0..4 further fields split by ';' (empty fields,
+// oscPayload: a selector (known, unknown, empty) and 0..6 further fields split by ';' (empty fields,
 // stray separators, non-ASCII, control bytes, long values).
 func (g *genr) oscPayload() string {
 	r := g.rng
 	sel := gen.Pick(r, []string{"0", "2", "8", "9", "11", "52", "777", "1", "4", "10", "104", "7", "", "00", "8 ", "-1", "5 2", "777 "})
 	fields := []string{"", "x", "?", "notify", "aGk=", "aGk", "!!", "====", "id=1", "id=1:k=v", "http://x", "c", "p", "é", "世界", "\x00", "\x7f", " ", "title with spaces", strings.Repeat("A", 300), "QUJD", "QUJD\n"}
-	n := r.Intn(5)
+	n := r.Intn(7) // round 4: up to 6 further fields (5 and more separators were thin: 1-7 cases per selector)
 	p := sel
 	for i := 0; i < n; i++ {
 		p += ";" + gen.Pick(r, fields)
